@@ -26,7 +26,7 @@ monitor(void)
 	for (int i = 0; i < MAXU; i++) {
 		if (!uaio_used[i])
 			continue;
-		CHECK(env_aio_completed(&uaio[i]) <= 1, "user receive completes at most once");
+		CHECK(env_aio_completed(&uaio_at(i)) <= 1, "user receive completes at most once");
 		if (KDONE(i) && KRESULT(i) == 0 && !kseen[i + 0]) {
 		}
 	}
@@ -58,7 +58,7 @@ static void
 note_delivery(int i)
 {
 	/* user receive i just completed OK */
-	nni_msg *m = nni_aio_get_msg(&uaio[i]);
+	nni_msg *m = nni_aio_get_msg(&uaio_at(i));
 	CHECK(m != NULL, "successful receive carries a message");
 	int w = widx(m->id);
 	CHECK(w >= 0, "delivered message is one that arrived from a peer");
@@ -70,7 +70,7 @@ note_delivery(int i)
 		CHECK(nni_msg_get_pipe(m) == kpipe[wpipe[w]].id, "delivered message names the pipe it arrived on");
 	}
 	nni_msg_free(m);
-	nni_aio_set_msg(&uaio[i], NULL);
+	nni_aio_set_msg(&uaio_at(i), NULL);
 }
 static int noted[MAXU];
 static void
@@ -89,7 +89,10 @@ ev_attach(int p)
 	if (kstop)
 		return;
 	env_pipe_init(&kpipe[p], 100 + p, NNI_PROTO_PUSH_V0);
-	memset(&pd[p], 0, sizeof(pd[p]));
+	{
+		static const __typeof__(pd[0]) pd_zero;
+		pd[p] = pd_zero; /* struct assignment keeps field sensitivity, memset does not */
+	}
 	CHECK(pull0_pipe_init(&pd[p], &kpipe[p], &sock) == 0, "pipe_init");
 	kpipe_up[p] = 1;
 	CHECK(pull0_pipe_start(&pd[p]) == 0, "pipe_start accepts a PUSH peer");
@@ -119,8 +122,8 @@ ev_recv(int i, int blocking)
 		return;
 	bool can = !nni_list_empty(&sock.pl);
 	kuaio_prepare(i, blocking);
-	env_aio_submit(&uaio[i]);
-	pull0_sock_recv(&sock, &uaio[i]);
+	env_aio_submit(&uaio_at(i));
+	pull0_sock_recv(&sock, &uaio_at(i));
 	if (can) {
 		CHECK(KDONE(i) && KRESULT(i) == 0, "receive succeeds at once when a message is held");
 		WITNESS("recv immediate");
@@ -163,7 +166,7 @@ ev_cancel(int i)
 		return;
 	int was_pending = !KDONE(i);
 	(void) KRESULT(i);
-	nni_aio_abort(&uaio[i], NNG_ECANCELED);
+	nni_aio_abort(&uaio_at(i), NNG_ECANCELED);
 	kquiesce();
 	if (was_pending)
 		CHECK(KDONE(i) && KRESULT(i) == NNG_ECANCELED, "cancelling a waiting receive completes it with ECANCELED");
@@ -208,7 +211,6 @@ ev_close(void)
 void
 harness(void)
 {
-	memset(&sock, 0, sizeof(sock));
 	pull0_sock_init(&sock, NULL);
 	pull0_sock_open(&sock);
 	monitor();
